@@ -121,7 +121,7 @@ def obs_sx(o):
         return ["qcomps", o.get("name") or "-", strata_sx(o.get("filt")), bool(o.get("inf", False))]
     if k == "qflows":
         return ["qflows", o.get("name") or "-", strata_sx(o.get("sf")), strata_sx(o.get("df"))]
-    if k in ("oracle", "traced_run", "kernels"):
+    if k in ("oracle", "traced_run", "kernels", "traced_library"):
         return ["oracle"]
     if k == "history":
         calls = []
